@@ -46,6 +46,9 @@ pub struct FsSc {
 	/// paths (indices) whose watch() fails
 	pub fail_watch: Vec<u8>,
 	pub fail_unwatch: Vec<u8>,
+	/// the watch failures are transient: each failing path fails once
+	#[serde(default)]
+	pub fail_once: bool,
 	/// how many pending changes may land inside a watch / unwatch call
 	pub in_call: usize,
 	pub err_chan: usize,
@@ -65,6 +68,8 @@ struct W {
 	/// changes not yet applied, in order
 	pending: Vec<(Chg, Via)>,
 	applied: Vec<Chg>,
+	/// number of watcher calls made when each change was applied
+	applied_at_call: Vec<usize>,
 	in_call_left: usize,
 	errors: Vec<String>,
 	violations: Vec<(String, String)>,
@@ -111,7 +116,11 @@ fn install_action(config: &Config, gen: usize) {
 
 fn apply(config: &Config, c: &Chg, how: &str) {
 	note(format!("apply {c:?} {how}"));
-	w(|x| x.applied.push(c.clone()));
+	let ncalls = fakewatcher::with(|f| f.calls.len());
+	w(|x| {
+		x.applied.push(c.clone());
+		x.applied_at_call.push(ncalls);
+	});
 	match c {
 		Chg::Paths(ps) => {
 			config.pathset(ps.iter().map(|(i, r)| if *r { WatchedPath::recursive(path(*i)) } else { WatchedPath::non_recursive(path(*i)) }));
@@ -168,6 +177,7 @@ pub fn run(sc: &FsSc, bounds: Bounds, prefix: &[Point], prop: &str) -> Result<Ex
 	fakewatcher::with(|f| {
 		f.fail_watch = sc.fail_watch.iter().map(|i| path(*i)).collect();
 		f.fail_unwatch = sc.fail_unwatch.iter().map(|i| path(*i)).collect();
+		f.fail_watch_once = sc.fail_once;
 	});
 	let sc2 = sc.clone();
 	let prop2 = prop.to_string();
@@ -385,6 +395,23 @@ fn converged(_sc: &FsSc, main_finished: bool, fin: bool) {
 			_ => {}
 		}
 	}
+	// a registration that failed is attempted again whenever the configuration changes: if
+	// the last attempt for a configured path failed, no change may have been applied since
+	let applied_at = w(|x| x.applied_at_call.clone());
+	for p in cfg.keys() {
+		if !fw.contains(p) {
+			continue;
+		}
+		let last_fail = calls.iter().rposition(|c| matches!(c, Call::Watch { idx: i, path, ok: false, .. } if i == idx && path == p));
+		if let Some(ci) = last_fail {
+			if applied_at.iter().any(|n| *n > ci) {
+				push(
+					format!("C13/failed-path-not-retried-after-a-change{suffix}"),
+					format!("{}: the last watch attempt (call {ci}) failed; a configuration change was applied after it and the path was not tried again (applied {applied:?})", p.display()),
+				);
+			}
+		}
+	}
 	for (p, m) in &cfg {
 		if fw.contains(p) {
 			continue;
@@ -532,24 +559,36 @@ pub fn scenarios(prop: &str, tier: Tier) -> Vec<(FsSc, Vec<Bounds>)> {
 		};
 		let direct: Vec<(Chg, Via)> = s.iter().cloned().map(|c| (c, Via::Direct)).collect();
 		if prop == "C13" {
-			out.push((FsSc { changes: direct.clone(), fail_watch: vec![], fail_unwatch: vec![], in_call: 0, err_chan: 64, errh_applies: false }, passes.clone()));
+			out.push((FsSc { changes: direct.clone(), fail_watch: vec![], fail_unwatch: vec![], in_call: 0, err_chan: 64, errh_applies: false, fail_once: false }, passes.clone()));
 			if l >= 2 && l <= if tier == Tier::Thorough { 4 } else { 3 } && drops_at_most_one(s) {
 				// later changes land in the middle of the previous apply
 				let max_in = if tier == Tier::Thorough { 2 } else { 1 };
 				let p = if tier == Tier::Thorough && l <= 3 { (0..=1).flat_map(both).collect() } else { both(0) };
-				out.push((FsSc { changes: direct.clone(), fail_watch: vec![], fail_unwatch: vec![], in_call: max_in, err_chan: 64, errh_applies: false }, p));
+				out.push((FsSc { changes: direct.clone(), fail_watch: vec![], fail_unwatch: vec![], in_call: max_in, err_chan: 64, errh_applies: false, fail_once: false }, p));
 			}
 			if l == 2 {
 				// issued from inside the action handler; mixed with no-op changes
 				let via_action: Vec<(Chg, Via)> = s.iter().cloned().map(|c| (c, Via::Action)).collect();
-				out.push((FsSc { changes: via_action, fail_watch: vec![], fail_unwatch: vec![], in_call: 0, err_chan: 64, errh_applies: false }, passes.clone()));
+				out.push((FsSc { changes: via_action, fail_watch: vec![], fail_unwatch: vec![], in_call: 0, err_chan: 64, errh_applies: false, fail_once: false }, passes.clone()));
 				for o in &others {
 					let mut ch = direct.clone();
 					ch.insert(1, (o.clone(), Via::Direct));
-					out.push((FsSc { changes: ch.clone(), fail_watch: vec![], fail_unwatch: vec![], in_call: 0, err_chan: 64, errh_applies: false }, both(0)));
+					out.push((FsSc { changes: ch.clone(), fail_watch: vec![], fail_unwatch: vec![], in_call: 0, err_chan: 64, errh_applies: false, fail_once: false }, both(0)));
 					let mut ch2 = direct.clone();
 					ch2.insert(1, (o.clone(), Via::Action));
-					out.push((FsSc { changes: ch2, fail_watch: vec![], fail_unwatch: vec![], in_call: 0, err_chan: 64, errh_applies: false }, both(0)));
+					out.push((FsSc { changes: ch2, fail_watch: vec![], fail_unwatch: vec![], in_call: 0, err_chan: 64, errh_applies: false, fail_once: false }, both(0)));
+				}
+			}
+		}
+		// a transient watch failure: after any later change (the same path set again, or an
+		// unrelated setting) the path must have been tried again and be registered
+		if prop == "C13" && l == 1 {
+			if let Chg::Paths(ps) = &s[0] {
+				if ps.iter().any(|(i, _)| *i == 0) {
+					for second in [s[0].clone(), Chg::Throttle, Chg::OnAction] {
+						let ch = vec![(s[0].clone(), Via::Direct), (second, Via::Direct)];
+						out.push((FsSc { changes: ch, fail_watch: vec![0], fail_unwatch: vec![], in_call: 0, err_chan: 64, errh_applies: false, fail_once: true }, both(0)));
+					}
 				}
 			}
 		}
@@ -558,9 +597,9 @@ pub fn scenarios(prop: &str, tier: Tier) -> Vec<(FsSc, Vec<Bounds>)> {
 			let mentions = |i: u8| s.iter().any(|c| matches!(c, Chg::Paths(p) if p.iter().any(|(j, _)| *j == i)));
 			if mentions(0) {
 				for (fw, fu, ec) in [(vec![0u8], vec![], 64usize), (vec![], vec![0u8], 64), (vec![0, 1], vec![], 1)] {
-					out.push((FsSc { changes: direct.clone(), fail_watch: fw.clone(), fail_unwatch: fu.clone(), in_call: 0, err_chan: ec, errh_applies: false }, passes.clone()));
+					out.push((FsSc { changes: direct.clone(), fail_watch: fw.clone(), fail_unwatch: fu.clone(), in_call: 0, err_chan: ec, errh_applies: false, fail_once: false }, passes.clone()));
 					if prop == "C13" && l == 2 {
-						out.push((FsSc { changes: direct.clone(), fail_watch: fw, fail_unwatch: fu, in_call: 0, err_chan: ec, errh_applies: true }, both(0)));
+						out.push((FsSc { changes: direct.clone(), fail_watch: fw, fail_unwatch: fu, in_call: 0, err_chan: ec, errh_applies: true, fail_once: false }, both(0)));
 					}
 				}
 			}
